@@ -239,7 +239,7 @@ Proof.
 Qed.
 Lemma search_item_no_crash cfg bad r : sitem_no_crash (search_item cfg bad r) = true.
 Proof.
-  unfold search_item. destruct (negb _); [reflexivity|].
+  unfold search_item.
   destruct (validate_search_request _); [|reflexivity].
   destruct (group_err cfg r bad) eqn:E; [|reflexivity].
   cbn. rewrite (group_err_no_crash _ _ _ _ E). reflexivity.
@@ -257,11 +257,9 @@ Proof.
   - unfold h_search. destruct (negb _); [reflexivity|]. destruct (validate_search_request _); [|reflexivity].
     destruct (engine_search_err cfg false s) eqn:E; [|reflexivity].
     cbn. rewrite (engine_search_err_no_crash _ _ _ _ E). reflexivity.
-  - unfold h_bulk_search. cbn [snd no_crash].
-    set (bad := filter _ _). destruct (_ <? _).
-    + rewrite forallb_app. cbn. rewrite andb_true_r. apply forallb_forall. intros x Hx.
-      apply in_map_iff in Hx as [y [<- _]]. apply search_item_no_crash.
+  - unfold h_bulk_search. cbn [snd no_crash]. apply andb_true_iff. split.
     + apply forallb_forall. intros x Hx. apply in_map_iff in Hx as [y [<- _]]. apply search_item_no_crash.
+    + destruct (negb _); [reflexivity|]. destruct (_ <? _); reflexivity.
   - unfold h_update. destruct (id =? 0); [reflexivity|]. destruct (map_doc_id id); [|reflexivity].
     destruct (dget ds n); reflexivity.
   - unfold h_delete. destruct (id <? MIN_DOC_ID); [reflexivity|]. destruct (map_doc_id id); reflexivity.
@@ -473,7 +471,7 @@ Lemma bulk_insert_empty cfg ds : h_bulk_insert cfg ds [] = (ds, OkInsert true 0 
 Proof. reflexivity. Qed.
 Lemma bulk_load_empty cfg ds : h_bulk_load cfg ds [] = (ds, OkBulkLoad true 0 0).
 Proof. reflexivity. Qed.
-Lemma bulk_search_empty cfg ds : h_bulk_search cfg ds [] = (ds, OkBulkSearch []).
+Lemma bulk_search_empty cfg ds : h_bulk_search cfg ds [] = (ds, OkBulkSearch [] None).
 Proof.
   unfold h_bulk_search, take. rewrite len_nil. replace (c_max_batch cfg <? 0) with false by (destruct (c_max_batch cfg); reflexivity).
   destruct (N.to_nat _); reflexivity.
@@ -647,35 +645,67 @@ Proof.
 Qed.
 
 (* ------------------------------------------------------------------ BulkSearch: who gets an answer *)
-Definition all_ok (l : list sitem) : bool := forallb (fun i => match i with SOk => true | SErr _ => false end) l.
-Lemma delivered_all_ok l : all_ok l = true -> delivered l = l.
+Lemma decodable_prefix_all cfg rs : all_decodable cfg rs = true -> decodable_prefix cfg rs = rs.
 Proof.
-  induction l as [|x r IH]; cbn; [reflexivity|]. destruct x; [|discriminate]. intros H. rewrite (IH H). reflexivity.
+  unfold all_decodable. induction rs as [|r rest IH]; cbn [forallb decodable_prefix]; [reflexivity|].
+  intros H. apply andb_true_iff in H as [H1 H2]. rewrite H1, (IH H2). reflexivity.
 Qed.
-Lemma delivered_length l : (List.length (delivered l) <= List.length l)%nat.
-Proof. induction l as [|x r IH]; cbn; [lia|]. destruct x; cbn; lia. Qed.
-(* every request of a stream is answered when no request of the stream is refused *)
-Theorem bulk_search_answered_partial cfg ds rs items :
-  len rs <= c_max_batch cfg -> handle cfg ds (RBulkSearch rs) = (ds, OkBulkSearch items) -> all_ok items = true ->
-  List.length (delivered items) = List.length rs.
+Lemma take_all {A} n (l : list A) : len l <= n -> take n l = l.
+Proof. intros H. unfold take. apply firstn_all2. unfold len in H. lia. Qed.
+(* Every request of a stream within the batch limit whose messages all decode gets exactly one answer, in
+   order: the stream ends normally and carries one item per request; the item of a request refused by the
+   validator or by the engine is a per-item failure (SErr), never the end of the stream. *)
+Theorem bulk_search_answered cfg ds rs :
+  len rs <= c_max_batch cfg -> all_decodable cfg rs = true ->
+  exists items,
+    handle cfg ds (RBulkSearch rs) = (ds, OkBulkSearch items None)
+    /\ List.length items = List.length rs
+    /\ (forall i r, nth_error rs i = Some r ->
+          nth_error items i = Some (search_item cfg (filter (engine_bad cfg) rs) r))
+    /\ (forall r bad s, validate_search_request (sview r) = VErr s -> search_item cfg bad r = SErr InvalidArgument)
+    /\ (forall r bad p, validate_search_request (sview r) = VOk p -> group_err cfg r bad = None -> search_item cfg bad r = SOk).
 Proof.
-  intros HL H HA. rewrite (delivered_all_ok _ HA). cbn [handle] in H. unfold h_bulk_search in H.
-  apply N.ltb_ge in HL. rewrite HL in H. injection H as <-. rewrite map_length. unfold take.
-  rewrite firstn_all2; [reflexivity|]. apply N.ltb_ge in HL. unfold len in HL. lia.
+  intros HL HD. exists (map (search_item cfg (filter (engine_bad cfg) rs)) rs).
+  split; [|split; [|split; [|split]]].
+  - cbn [handle]. unfold h_bulk_search. rewrite (take_all _ _ HL), HD, (decodable_prefix_all _ _ HD).
+    apply N.ltb_ge in HL. rewrite HL. reflexivity.
+  - apply map_length.
+  - intros i r H. apply map_nth_error. exact H.
+  - intros r bad s H. unfold search_item. rewrite H. reflexivity.
+  - intros r bad p H HG. unfold search_item. rewrite H, HG. reflexivity.
 Qed.
-(* ... and not otherwise: one refused request silences the valid requests that follow it *)
+(* a stream the server ends itself: past the batch limit every accepted request is answered first; a message
+   that does not decode ends the stream with INTERNAL *)
+Theorem bulk_search_terminated cfg ds rs :
+  (c_max_batch cfg < len rs -> all_decodable cfg (take (c_max_batch cfg) rs) = true ->
+     exists items, handle cfg ds (RBulkSearch rs) = (ds, OkBulkSearch items (Some ResourceExhausted))
+                   /\ len items = c_max_batch cfg)
+  /\ (all_decodable cfg (take (c_max_batch cfg) rs) = false ->
+     exists items, handle cfg ds (RBulkSearch rs) = (ds, OkBulkSearch items (Some Internal))).
+Proof.
+  split.
+  - intros HL HD. eexists. split.
+    + cbn [handle]. unfold h_bulk_search. rewrite HD. apply N.ltb_lt in HL. rewrite HL. reflexivity.
+    + rewrite (decodable_prefix_all _ _ HD). unfold len, take. rewrite map_length, firstn_length_le.
+      * apply N2Nat.id.
+      * unfold len in HL. lia.
+  - intros HD. eexists. cbn [handle]. unfold h_bulk_search. rewrite HD. reflexivity.
+Qed.
+(* The behaviour BEFORE /repo b58b923, kept as a labelled example: the per-request results were forwarded as
+   stream items, and a gRPC response stream ends at its first Err item. *)
+Fixpoint delivered_before_b58b923 (l : list sitem) : list sitem :=
+  match l with
+  | [] => []
+  | SOk :: r => SOk :: delivered_before_b58b923 r
+  | SErr c :: _ => [SErr c]
+  end.
 Definition w_cfg : config := mkCfg 2 Euclid 10000 10000000 100.
 Definition w_ok : sreq := mkSreq [FinNZ; Zero] 1 0 [] None.
 Definition w_k0 : sreq := mkSreq [FinNZ; Zero] 0 0 [] None.
-Lemma bulk_search_abort_refuted :
-  exists cfg rs items,
-    snd (handle cfg [] (RBulkSearch rs)) = OkBulkSearch items
-    (* the third request is valid and was computed, but the stream carries fewer answers than requests *)
-    /\ nth 2 items (SErr NoAnswer) = SOk
-    /\ (List.length (delivered items) < List.length rs)%nat.
-Proof.
-  exists w_cfg, [w_ok; w_k0; w_ok]. eexists. split; [vm_compute; reflexivity|]. split; [reflexivity|]. cbn. lia.
-Qed.
+Example bulk_search_abort_before_b58b923 :
+  snd (handle w_cfg [] (RBulkSearch [w_ok; w_k0; w_ok])) = OkBulkSearch [SOk; SErr InvalidArgument; SOk] None
+  /\ delivered_before_b58b923 [SOk; SErr InvalidArgument; SOk] = [SOk; SErr InvalidArgument].
+Proof. split; vm_compute; reflexivity. Qed.
 
 (* ------------------------------------------------------------------ non-vacuity *)
 Example accepted_insert_has_effect :
@@ -766,7 +796,7 @@ Qed.
 Theorem boundary_batches cfg ds :
   h_bulk_insert cfg ds [] = (ds, OkInsert true 0 0)
   /\ h_bulk_load cfg ds [] = (ds, OkBulkLoad true 0 0)
-  /\ h_bulk_search cfg ds [] = (ds, OkBulkSearch [])
+  /\ h_bulk_search cfg ds [] = (ds, OkBulkSearch [] None)
   /\ h_bulk_query cfg ds [] = (ds, OkBulkQuery [])
   /\ h_batch_delete_ids cfg ds [] = (ds, OkBatchDelete 0)
   /\ handle cfg ds RBatchDeleteNone = (ds, Refused InvalidArgument)
